@@ -925,3 +925,103 @@ func genC05(t *rapid.T, spec *GenSpec) *Program {
 	p.Extra = b
 	return p
 }
+
+// ---------------------------------------------------------------
+// concurrent cases (C03, C16, C17)
+
+type ConcSpec struct {
+	Prop      string
+	Close     bool // generate a Close at a generated point (C16)
+	Pollers   bool
+	Notifiers bool
+	Children  bool
+	SlowLL    bool
+}
+
+func genConc(t *rapid.T, cs *ConcSpec) *Program {
+	p := &Program{Prop: cs.Prop}
+	spec := &GenSpec{Prop: cs.Prop, Backings: []string{"mem", "store", "store", "ll"}}
+	p.Cfg = genConfig(t, spec)
+	p.Cfg.MaxPreMergerBatches = rapid.SampledFrom([]int{1, 2, 3}).Draw(t, "maxPreMerger")
+	if p.Cfg.Backing != "mem" && chance(t, "dirtylimits", 35) {
+		p.Cfg.MaxDirtyOps = rapid.SampledFrom([]uint64{1, 4, 20}).Draw(t, "maxDirtyOps")
+		p.Cfg.MaxDirtyBytes = rapid.SampledFrom([]uint64{0, 16, 200}).Draw(t, "maxDirtyBytes")
+	}
+	x := ConcExtra{}
+	nW := rapid.IntRange(1, 4).Draw(t, "writers")
+	for w := 0; w < nW; w++ {
+		nb := rapid.IntRange(1, 40).Draw(t, "nbatches")
+		pfx := writerPrefix(w)
+		nk := rapid.IntRange(1, 5).Draw(t, "nkeys")
+		var bs []*Batch
+		for i := 1; i <= nb; i++ {
+			b := &Batch{Ops: []KV{{Op: OpSet, K: markerKey(w), V: []byte(fmt.Sprint(i))}}}
+			for k := 0; k < nk; k++ {
+				key := []byte(fmt.Sprintf("%sk%d", pfx, k))
+				switch pick(t, "wop", 55, 25, 20) {
+				case 0:
+					b.Ops = append(b.Ops, KV{Op: OpSet, K: key, V: []byte(fmt.Sprintf("%d.%d", i, k))})
+				case 1:
+					b.Ops = append(b.Ops, KV{Op: OpDel, K: key})
+				}
+			}
+			if cs.Children && chance(t, "wchild", 40) {
+				nc := rapid.IntRange(1, 2).Draw(t, "nchild")
+				used := map[string]bool{}
+				for c := 0; c < nc; c++ {
+					name := rapid.SampledFrom(childPool[:2]).Draw(t, "cname")
+					if used[name] {
+						continue
+					}
+					used[name] = true
+					cb := &Batch{}
+					for k := 0; k < 2; k++ {
+						key := []byte(fmt.Sprintf("%sc%d", pfx, k))
+						if chance(t, "cset", 70) {
+							cb.Ops = append(cb.Ops, KV{Op: OpSet, K: key, V: []byte(fmt.Sprintf("%d.c%d", i, k))})
+						} else {
+							cb.Ops = append(cb.Ops, KV{Op: OpDel, K: key})
+						}
+					}
+					b.Children = append(b.Children, ChildBatch{Name: name, B: cb})
+				}
+			}
+			bs = append(bs, b)
+		}
+		x.Writers = append(x.Writers, bs)
+	}
+	x.Readers = rapid.IntRange(1, 3).Draw(t, "readers")
+	x.GetReader = chance(t, "getreader", 60)
+	x.Pollers = cs.Pollers
+	if cs.Notifiers && chance(t, "notifiers", 60) {
+		x.Notifiers = rapid.IntRange(1, 2).Draw(t, "nnotifiers")
+	}
+	np := rapid.IntRange(0, 8).Draw(t, "nperturb")
+	for i := 0; i < np; i++ {
+		x.Perturb = append(x.Perturb, rapid.SampledFrom([]int{0, 0, 1, 5, 20, 100}).Draw(t, "perturb"))
+	}
+	x.Procs = rapid.SampledFrom([]int{16, 4, 2}).Draw(t, "procs")
+	if p.Cfg.Backing == "ll" && cs.SlowLL {
+		x.LLSlowUs = rapid.SampledFrom([]int{0, 50, 500}).Draw(t, "llslow")
+		if chance(t, "llfail", 40) {
+			n := rapid.IntRange(1, 6).Draw(t, "nllfail")
+			x.LLFail = make([]bool, n)
+			for i := range x.LLFail {
+				x.LLFail[i] = rapid.Bool().Draw(t, "llf")
+			}
+		}
+		if chance(t, "llstall", 25) {
+			x.LLStallMs = rapid.SampledFrom([]int{5, 30}).Draw(t, "llstall")
+		}
+	}
+	if cs.Close {
+		tot := 0
+		for _, ws := range x.Writers {
+			tot += len(ws)
+		}
+		x.CloseAfter = rapid.IntRange(1, tot).Draw(t, "closeAfter")
+	}
+	b, _ := json.Marshal(&x)
+	p.Extra = b
+	return p
+}
